@@ -346,9 +346,12 @@ class ActionLink(Action):
                 if source_key == source_action.dest:
                     source_objects.append(source_object)
                 else:
-                    attr = split_key_leaf(source_key)[1]
+                    attrs = re.sub(r"^init_args\.", "", source_key[len(source_action.dest) + 1 :]).split(".")  # attribute (of attribute)
                     from ._typehints import ActionTypeHint
 
+                    for attr in attrs[:-1]:
+                        source_object = getattr(source_object, attr, None)
+                    attr = attrs[-1]
                     if ActionTypeHint.is_subclass_typehint(source_action) and not hasattr(source_object, attr):
                         parser.logger.debug(
                             f"Link '{action.option_strings[0]}' ignored since attribute '{attr}' not found "
